@@ -16,10 +16,10 @@
 (* flagged: absolute values, a relative value, the empty value, a flagged  *)
 (* value, Top - their closure under merge is reached by the machine).      *)
 (* FreeB = FALSE freezes region B to a partner chosen by Init from a fixed *)
-(* set (quick instance); FreeB = TRUE lets both regions move (thorough).   *)
+(* list of 12 (the first NPart of them); FreeB = TRUE lets both move.      *)
 (***************************************************************************)
 EXTENDS MemRegion, TLC
-CONSTANTS NegOff, OffHi, Sizes, Doms, NVals, ShiftMag, FreeB
+CONSTANTS NegOff, OffHi, Sizes, Doms, NVals, ShiftMag, FreeB, NPart
 
 \* (TLC configuration files cannot spell negative numbers)
 OffLo == 0 - NegOff
@@ -43,23 +43,25 @@ Seq2Region(D, adds) ==
   IN F(EmptyRegion, 1)
 V(D, s, k) == IF D = "flat" THEN FlatVal(s, k) ELSE FlagVal(s, k, NoRel, FALSE)
 \* the partners are given as sequences of <<offset, value>> additions (so that the history
-\* carrying instance can replay their construction on the real type)
-PartnerAdds(D) ==
+\* carrying instance can replay their construction on the real type); an instance uses the
+\* first NPart of them
+PartnerSeq(D) ==
   LET s1 == CHOOSE s \in Sizes : \A t \in Sizes : s <= t
       s2 == CHOOSE s \in Sizes : s > s1 /\ \A t \in Sizes : t > s1 => s <= t
       mid == (OffLo + OffHi) \div 2
-  IN { <<>>,
-       <<<<OffLo, V(D, s1, 1)>>>>,
-       <<<<OffLo, V(D, s2, 1)>>>>,
-       <<<<OffLo, V(D, s1, 2)>>, <<OffLo + s1, V(D, s1, 1)>>>>,
-       <<<<mid, V(D, s1, 1)>>>>,
-       <<<<mid, V(D, s2, 1)>>>>,
-       <<<<mid, V(D, s2, 2)>>>>,
-       <<<<mid - 1, V(D, s2, 1)>>, <<mid + 1, V(D, s1, 1)>>>>,
-       <<<<OffHi, V(D, s1, 1)>>>>,
-       <<<<OffHi, V(D, s2, 2)>>>>,
-       <<<<OffLo, V(D, s1, 1)>>, <<mid, V(D, s2, 1)>>, <<OffHi, V(D, s1, 2)>>>>,
-       [i \in 1..(OffHi - OffLo + 1) |-> <<OffLo + i - 1, V(D, s1, 1)>>] }
+  IN << <<>>,
+        <<<<mid, V(D, s2, 1)>>>>,
+        <<<<OffLo, V(D, s1, 2)>>, <<OffLo + s1, V(D, s1, 1)>>>>,
+        <<<<mid - 1, V(D, s2, 1)>>, <<mid + 1, V(D, s1, 1)>>>>,
+        [i \in 1..(OffHi - OffLo + 1) |-> <<OffLo + i - 1, V(D, s1, 1)>>],
+        <<<<OffLo, V(D, s1, 1)>>>>,
+        <<<<OffLo, V(D, s2, 1)>>>>,
+        <<<<mid, V(D, s1, 1)>>>>,
+        <<<<mid, V(D, s2, 2)>>>>,
+        <<<<OffHi, V(D, s1, 1)>>>>,
+        <<<<OffHi, V(D, s2, 2)>>>>,
+        <<<<OffLo, V(D, s1, 1)>>, <<mid, V(D, s2, 1)>>, <<OffHi, V(D, s1, 2)>>>> >>
+PartnerAdds(D) == {PartnerSeq(D)[i] : i \in 1..(IF NPart < 12 THEN NPart ELSE 12)}
 Partners(D) == {Seq2Region(D, a) : a \in PartnerAdds(D)}
 
 MCInit ==
@@ -97,8 +99,8 @@ ReadClauses ==
     /\ TouchedAt(dom, cells[r], Off, GenVals(dom), Sizes)
 MergeClause == MergeKeepsOnlyAt(dom, cells["A"], cells["B"])
 \* ... and as action properties (checked by the small instance MC_MemRegion_props.cfg)
-ReadAfterWrite == [][ReadAfterWriteOn(Off, GenVals(dom))]_vars
-MergeOnly == [][MergeKeepsOnly]_vars
+ReadAfterWrite == [][ReadAfterWriteOn(Movable, Off, GenVals(dom))]_vars
+MergeOnly == [][MergeKeepsOnlyOn(Movable)]_vars
 
 \* clear_top_values is the identity on every reachable state
 ClearTopNoop == \A r \in Regions : DropTop(dom, cells[r]) = cells[r]
